@@ -96,7 +96,7 @@ def _locator_blob(entries: dict[str, str]) -> bytes:
     table = bytearray()
     strings = bytearray()
     base = 20 + 12 * len(entries)
-    for k, v in entries.items():
+    for k, v in (entries.items() if isinstance(entries, dict) else entries):
         kb, vb = k.encode("utf-16-le"), v.encode("utf-16-le")
         ko = base + len(strings)
         strings += kb
@@ -159,6 +159,8 @@ def build_layer(l, parent_name=None, name="x.vhdx", absdir=None):
             ent["absolute_win32_path"] = (absdir.lstrip("/").replace("/", "\\") + "\\" if absdir else "C:\\nonexistent\\") + parent_name
         if l["locator"] == "absolute":
             ent["relative_path"] = ".\\missing-" + parent_name
+        if l.get("loc_entries") is not None:
+            ent = [tuple(e) for e in l["loc_entries"]]      # C07 resolution layouts: the key/value table verbatim (duplicates allowed)
         items.append((PLOC, _locator_blob(ent), 4))
     if l["unknown_meta"]:
         items.append((uuid.UUID(int=0xDEADBEEF0000000000000000CAFE0000 + l["seed"]).bytes_le, b"\x01\x02\x03\x04", 0))   # optional, unknown
